@@ -66,6 +66,15 @@ def transparency(ld, r, count):
                                                      and repr(plain[0]) == repr(wrapped[0])):
                 fails.append(f'profiling changes the iteration of {gen_a.coq_prog(node)[:300]}: {plain!r} vs wrapped {wrapped!r}')
                 continue
+            # the capability flags decide what stages stacked on the wrapper accept (selections, eager caches, frozen reshuffles): they
+            # are those of the wrapped pipeline
+            for flag in ('indexable', 'ordered'):
+                fa, fb = gen_a.obs_call(lambda: bool(getattr(obj, flag))), gen_a.obs_call(lambda: bool(getattr(prof, flag)))
+                if (fa[0], fa[1] if fa[0] == 'ok' else None) != (fb[0], fb[1] if fb[0] == 'ok' else None):
+                    fails.append(f'profiling changes the {flag} flag of {gen_a.coq_prog(node)[:300]}: {fa} vs wrapped {fb}')
+            ea, eb = gen_a.obs_call(lambda: [repr(x) for x in obj.cache(lazy=False)]), gen_a.obs_call(lambda: [repr(x) for x in ld.core.ProfilingDataset(obj).cache(lazy=False)])
+            if (ea[0] == 'ok') != (eb[0] == 'ok') or (ea[0] == 'ok' and ea[1] != eb[1]):
+                fails.append(f'profiling changes what an eager cache on top of {gen_a.coq_prog(node)[:300]} delivers: {str(ea)[:200]} vs wrapped {str(eb)[:200]}')
             b = gen_a.obs_call(lambda: len(prof))
             if (a[0] == 'ok') != (b[0] == 'ok') or (a[0] == 'ok' and a[1] != b[1]):
                 fails.append(f'profiling changes len of {gen_a.coq_prog(node)[:300]}: {a} vs {b}')
